@@ -178,7 +178,7 @@ def gen(t):
     w = o.append
     w('//@include prelude.rs')
     w('//@include lemmas.rs')
-    w('//@props C02')
+    w('//@props C02 C01')
     w('//@include inc/common.vu')
     w('//@include inc/errors.vu')
     w('// GENERATED by tools/gen_mtser.py; the oracle is the declaration order of the message struct')
@@ -230,7 +230,7 @@ def gen(t):
         b = rsx.strip_comments(body)
     w('//@fn %s to_mt_string in "%s" impl=%s' % (f, scope, T))
     w('ensures')
-    w('  [C02 mt%s.ser.order] r@ == finalize_spec(%s_text(self), false)' % (t, T))
+    w('  [C02,C01 mt%s.ser.order] r@ == finalize_spec(%s_text(self), false)' % (t, T))
     # loops over sequences: invariant from declaration order
     mfields = ORDERS[T]
     loops = list(re.finditer(r'for\s+([a-z_][a-z0-9_]*)\s+in\s+&\s*self\s*\.\s*([a-z_][a-z0-9_]*)\s*\{', rsx.mask(b)))
